@@ -381,7 +381,7 @@ func c01ReplyFields() map[string][]replyAlt {
 	nb := sim.CompactNode(c01IDB, c01PeerB.IP.To4(), c01PeerB.Port)
 	n6 := sim.CompactNode(c01IDB, net.ParseIP("2001:db8::b"), 3102)
 	return map[string][]replyAlt{
-		"id":     {{"ok", sim.IDStr(c01IDA)}, {"19", strings.Repeat("i", 19)}, {"int", 3}, {"zero", string(make([]byte, 20))}},
+		"id":     {{"ok", sim.IDStr(c01IDA)}, {"19", strings.Repeat("i", 19)}, {"int", 3}, {"zero", string(make([]byte, 20))}, {"self", sim.IDStr(sim.Root)}},
 		"nodes":  {{"ok", nb}, {"25", nb[:25]}, {"27", nb + "x"}, {"int", 9}, {"port0", nb[:24] + "\x00\x00"}, {"self", sim.CompactNode(sim.Root, net.IP{203, 0, 113, 1}, 4000)}},
 		"nodes6": {{"ok", n6}, {"37", n6[:37]}, {"list", []interface{}{n6}}},
 		"token":  {{"ok", "tokA"}, {"int", 5}, {"empty", ""}, {"list", []interface{}{"t"}}},
@@ -409,7 +409,7 @@ func c01ReplyLetters() (ls []string) {
 			}
 		}
 	}
-	ls = append(ls, "R:", "X:no-r", "X:r=int", "X:r=str", "X:e-list", "X:e-str", "X:e-short", "X:e-nonint", "X:e-empty", "X:y=zz", "X:y-absent", "X:mutable-full", "X:k-match-no-seq", "X:immutable-ok")
+	ls = append(ls, "R:", "X:no-r", "X:r=int", "X:r=str", "X:e-list", "X:e-str", "X:e-short", "X:e-nonint", "X:e-empty", "X:e-int-int", "X:e-int-list", "X:y=zz", "X:y-absent", "X:mutable-full", "X:k-match-no-seq", "X:immutable-ok")
 	return
 }
 
@@ -454,6 +454,10 @@ func c01BuildReply(letter, tid string) []byte {
 		return sim.Enc(sim.M{"t": tid, "y": "e", "e": []interface{}{"a", "b"}})
 	case "X:e-empty":
 		return sim.Enc(sim.M{"t": tid, "y": "e", "e": []interface{}{}})
+	case "X:e-int-int":
+		return sim.Enc(sim.M{"t": tid, "y": "e", "e": []interface{}{201, 202}})
+	case "X:e-int-list":
+		return sim.Enc(sim.M{"t": tid, "y": "e", "e": []interface{}{201, []interface{}{"x"}}})
 	case "X:y=zz":
 		return sim.Enc(sim.M{"t": tid, "y": "zz", "r": sim.M{"id": sim.IDStr(c01IDA)}})
 	case "X:y-absent":
